@@ -29,7 +29,10 @@ type walkObs struct {
 	orphan   bool
 }
 
-type recVisitor struct{ o *walkObs; stack *[]*wnode }
+type recVisitor struct {
+	o     *walkObs
+	stack *[]*wnode
+}
 
 func (v recVisitor) Visit(n ast.Node) ast.Visitor {
 	v.o.event(n, v.stack)
@@ -83,7 +86,7 @@ func observe(root ast.Node, useInspect bool) (o *walkObs) {
 type problem struct{ sig, detail string }
 
 // compareWalk checks the observed traversal against the reflection-based expectation, node by node.
-func compareWalk(root ast.Node, o *walkObs, api string) []problem {
+func compareWalk(root ast.Node, o *walkObs, api string, positional bool) []problem {
 	var ps []problem
 	add := func(sig, d string) {
 		for _, p := range ps {
@@ -113,7 +116,7 @@ func compareWalk(root ast.Node, o *walkObs, api string) []problem {
 	var rec func(w *wnode)
 	rec = func(w *wnode) {
 		kind := syntree.KindOf(w.n)
-		want := syntree.Children(w.n)
+		want := syntree.OrderedChildren(w.n)
 		if o.panicked != nil && w.n == o.last {
 			return // expansion of this node was cut short by the panic already reported
 		}
@@ -157,7 +160,7 @@ func compareWalk(root ast.Node, o *walkObs, api string) []problem {
 			}
 		}
 		for i := range a {
-			if i < len(b) && a[i] != b[i] {
+			if positional && i < len(b) && a[i] != b[i] {
 				add("walk-order:"+kind, fmt.Sprintf("%s: child %s (%s) visited where %s (%s) is due", kind,
 					wantSet[b[i]], syntree.KindOf(b[i]), wantSet[a[i]], syntree.KindOf(a[i])))
 				break
@@ -192,11 +195,13 @@ func under(w *wnode, n ast.Node) bool {
 }
 
 // checkTraversal runs Walk and Inspect over root; returns problems and the event kinds Walk produced.
-func checkTraversal(root ast.Node) ([]problem, []string) {
+// positional: the tree has source positions, so sibling order is judged by them; for a synthesized tree
+// (no positions) the order is judged against the model's sequence by the caller (orderAgainstModel).
+func checkTraversal(root ast.Node, positional bool) ([]problem, []string) {
 	ow := observe(root, false)
-	ps := compareWalk(root, ow, "Walk")
+	ps := compareWalk(root, ow, "Walk", positional)
 	oi := observe(root, true)
-	for _, p := range compareWalk(root, oi, "Inspect") {
+	for _, p := range compareWalk(root, oi, "Inspect", positional) {
 		dup := false
 		for _, q := range ps {
 			if q.sig == p.sig {
@@ -211,6 +216,28 @@ func checkTraversal(root ast.Node) ([]problem, []string) {
 		ps = append(ps, problem{"walk-inspect-differ", "Walk and Inspect produce different event sequences"})
 	}
 	return ps, ow.kinds
+}
+
+// orderAgainstModel: every node shows the right set of children but the event sequence differs from the
+// model's WalkEvents(t): name the node whose children come in the wrong order.
+func orderAgainstModel(kinds, model []string) (string, bool) {
+	var stack []string
+	for i := 0; i < len(kinds) && i < len(model); i++ {
+		if kinds[i] != model[i] {
+			if len(stack) == 0 {
+				return "?", true
+			}
+			return stack[len(stack)-1], true
+		}
+		if kinds[i] == "nil" {
+			if len(stack) > 0 {
+				stack = stack[:len(stack)-1]
+			}
+		} else {
+			stack = append(stack, kinds[i])
+		}
+	}
+	return "", len(kinds) != len(model)
 }
 
 func runC18() {
@@ -230,13 +257,15 @@ func runC18() {
 		if node, err := syntree.Build(c.PT); err != nil {
 			emit("viol", "harness-build", err.Error(), "synth")
 		} else {
-			ps, kinds := checkTraversal(node)
+			ps, kinds := checkTraversal(node, false)
 			for _, p := range ps {
 				emit("viol", p.sig, p.detail+" [synthesized "+c.PT.String()+"]", "synth")
 			}
 			if len(ps) == 0 {
 				if strings.Join(kinds, " ") != model {
-					emit("drift", "walk-model-mismatch", fmt.Sprintf("events %v, model %v", kinds, c.Walk), "synth")
+					// same children everywhere, different order: the model (source order) decides
+					k, _ := orderAgainstModel(kinds, c.Walk)
+					emit("viol", "walk-order:"+k, fmt.Sprintf("%s: children visited in the order %v, source order is %v [synthesized %s]", k, kinds, c.Walk, c.PT), "synth")
 				} else {
 					emit("ok", "", "Walk = Inspect = reflection = model: "+model, "synth")
 				}
@@ -248,7 +277,7 @@ func runC18() {
 			if err != nil {
 				emit("drift", "model-text-rejected", fmt.Sprintf("%q: %v", p.src, firstLine(err.Error())), "parsed")
 			} else {
-				ps, kinds := checkTraversal(p.root)
+				ps, kinds := checkTraversal(p.root, true)
 				for _, q := range ps {
 					emit("viol", q.sig, q.detail+fmt.Sprintf(" [parsed from %q]", p.src), "parsed")
 				}
